@@ -4,7 +4,7 @@ import ast
 from . import rule, info
 from ..program import AnalysisError, src, norm, ClassInfo
 from ..util import (exclusive, polarity, choice_leaves, is_name, calls_in, callee_qual, deref, ancestors, stmt_of, parent, handler_outcomes,
-                    handler_covers, fmt_witness, kwarg)
+                    handler_covers, fmt_witness, kwarg, completes_normally)
 from ..pattern import match, matches
 
 info('C13',
@@ -714,3 +714,56 @@ def miss_is_reported_on_every_lookup(ctx):
               and isinstance(n.ast.exc, ast.Call) and callee_qual(ctx.program, u, n.ast.exc) == 'core.UnregisteredTarget']
     ctx.ob(len(raises) >= 1, u, 'a missing handler is reported as UnregisteredTarget')
     ctx.floor(2)
+
+
+ITERATION_CONSUMERS = ('core._handle_list', 'streaming.Iter._iterate', 'grouping.target_iter')
+
+
+@rule('C13.21')
+def iteration_asks_the_registry(ctx):
+    """every consumer of the 'iterate' operation (list specs, Iter, Fold / Group through target_iter)
+    asks the running call's registry for every target -- an empty or falsy target included: no
+    exit is reached without the lookup -- and takes the registry's answer as final: an
+    UnregisteredTarget from the lookup is never caught and replaced by a built-in fallback
+    (``iter``), which would override an explicit ``iterate=False`` and a bare Glommer"""
+    p = ctx.program
+    n = 0
+    for q in ITERATION_CONSUMERS:
+        u = ctx.unit(q)
+        cfg = ctx.cfg(u)
+        looks = [c for c in calls_in(u) if isinstance(c.func, ast.Attribute) and c.func.attr == 'get_handler'
+                 and c.args and isinstance(c.args[0], ast.Constant) and c.args[0].value == 'iterate']
+        tprm = u.params[1] if u.cls is not None else u.params[0]
+        if not looks:
+            # the consumer hands its target to another consumer (Iter re-using target_iter): that
+            # call stands for the lookup
+            via = [c for c in calls_in(u) if callee_qual(p, u, c) in ITERATION_CONSUMERS and callee_qual(p, u, c) != q
+                   and c.args and is_name(c.args[0], tprm)]
+            ctx.require(len(via) == 1, "%s: the 'iterate' lookup not found (%d)" % (q, len(looks)))
+            n += 1
+            c = via[0]
+            ln = cfg.node_containing(c)
+            ctx.ob(True, u, 'the target is handed to %s, which asks the registry: %s' % (callee_qual(p, u, c), norm(c)[:60]), node=c)
+        else:
+            ctx.require(len(looks) == 1, "%s: the 'iterate' lookup not found (%d)" % (q, len(looks)))
+            n += 1
+            c = looks[0]
+            ln = cfg.node_containing(c)
+            ok = len(c.args) >= 2 and is_name(c.args[1], tprm) \
+                and isinstance(c.func.value, ast.Subscript) and p.scope_key(u, c.func.value.slice) == 'core.TargetRegistry'
+            ctx.ob(ok, u, 'the handler is looked up for the target in the registry of the running call: %s' % norm(c)[:80], node=c)
+        # no normal exit without the lookup
+        exits = {x for x in cfg.nodes if x.kind == 'stmt' and isinstance(x.ast, ast.Return)} | {cfg.exit}
+        okp, wit = cfg.must_pass(cfg.entry, exits, {ln}, labels=lambda l: l != 'exc')
+        ctx.ob(okp, u, 'no result is produced without asking the registry',
+               '' if okp else 'a path answers without the lookup (an unsupported or specially registered target is not noticed): %s'
+               % fmt_witness(cfg, wit), node=c)
+        # the registry's "unsupported" is final
+        for h in cfg.handlers_reached_from(ln):
+            if not handler_covers(cfg, h, 'core.UnregisteredTarget', p):
+                continue
+            out = handler_outcomes(cfg, h)
+            okh = bool(out) and not completes_normally(out)
+            ctx.ob(okh, u, 'a refused lookup is not replaced by a fallback: except %s' % (src(h.ast.type) if h.ast.type is not None else ''),
+                   '' if okh else 'the handler goes on with a handler of its own: what is registered as not iterable is iterated anyway', node=h.ast)
+    ctx.floor(6)
